@@ -799,9 +799,13 @@ impl Gen {
             };
             self.count("flush");
             gen::flush(q(op::FLUSH), d)
-        } else if r < 96 {
+        } else if r < 95 {
             self.count("noop");
             Req::new(op::NOOP)
+        } else if r < 96 && fl != "cfg" && fl != "big" {
+            // ends the connection: whatever follows in the same write must not be executed
+            self.count("quit");
+            Req::new(if self.rng.chance(1, 2) { op::QUIT } else { op::QUITQ })
         } else if r < 98 {
             self.count("version");
             Req::new(if self.rng.chance(1, 2) { op::VERSION } else { op::STAT })
@@ -834,7 +838,17 @@ impl Gen {
     pub fn malformed(&mut self) -> Vec<u8> {
         self.count("malformed");
         let mut req = self.request();
-        match self.rng.below(14) {
+        match self.rng.below(16) {
+            14 | 15 => {
+                // a body beyond the item limit, on any opcode (also those that carry none)
+                req.opcode = *self.rng.pick(&[
+                    op::GET, op::SET, op::ADD, op::REPLACE, op::DELETE, op::INCR, op::DECR, op::QUIT, op::FLUSH, op::GETQ,
+                    op::NOOP, op::VERSION, op::GETK, op::GETKQ, op::APPEND, op::PREPEND, op::STAT, op::SETQ, op::ADDQ,
+                    op::REPLACEQ, op::DELETEQ, op::INCRQ, op::DECRQ, op::QUITQ, op::FLUSHQ, op::APPENDQ, op::PREPENDQ,
+                ]);
+                let l = self.item_limit;
+                req.bodylen = Some(l + 1 + self.rng.below(200) as u32);
+            }
             0 => req.magic = *self.rng.pick(&[0x81u8, 0x00, 0xff, 0x7f]),
             1 => req.opcode = *self.rng.pick(&[0x1bu8, 0x1f, 0x25, 0x26, 0x80, 0xff]),
             2 => req.dtype = 1 + self.rng.below(255) as u8,
